@@ -44,7 +44,7 @@ def concrete(req):
     domain = (100.0, 90.0) if req["domain"] else (80.0, 90.0)
     halo = {0: None, 1: max(domain), 2: 20.0, 3: 0.0}[req["halo"]]
     kw = dict(
-        z=z, profiles=prof, domain=domain, levels=[3] if req["levels"] else [2], modes=(6, 4) if req["modes"] else (8, 6),
+        z=z, profiles=prof, domain=domain, levels=[3] if req["levels"] else [2], modes=((6, 4) if req["domain"] else (12, 10)) if req["modes"] else (8, 6),      # below the source grid / between source and padded grid / the source grid
         meas_pt=(30.0, 30.0) if req["meas_pt"] else (20.0, 30.0), srf_bg_conc=0.5 if req["bg"] else 0.0,
         footprint=True, analytic=bool(req["analytic"]), halo=halo, precision="double" if req["precision"] else "single",
     )
